@@ -139,6 +139,12 @@ class Model(object):
       res = 'TIMEOUT'
       self.abandoned.append((name, inv))
       self.count('timeout')
+    elif beh['kind'] == 'raise' and beh['exc'] == 'SystemExit':
+      # a BaseException that is not an Exception ends the phase thread without an outcome: the
+      # executor reports the phase as killed (terminal, ERROR, diagnosers skipped)
+      self.count('phase_thread_ended_without_outcome')
+      self.records.append((name, 'ERROR', S.name if S is not None else None, 'KILLED'))
+      return 'EXC:KILLED', True
     elif beh['kind'] == 'raise':
       res = 'EXC:' + beh['exc']
     elif beh['kind'] == 'junk':
